@@ -62,7 +62,21 @@ var callableInterface = reflect.TypeOf((*Callable)(nil)).Elem()
 var untypedCollectionInterface = reflect.TypeOf((*b6.UntypedCollection)(nil)).Elem()
 
 // Convert v to type t, if possible. Doesn't convert functions.
+// convertNil handles the invalid reflect.Value that represents a nil
+// on the VM's stack, for example a nil literal or the result of a function
+// returning a nil interface. Functions don't expect nil arguments, so
+// it's an error unless the function takes any value at all.
+func convertNil(t reflect.Type) (reflect.Value, error) {
+	if t.Kind() == reflect.Interface && t.NumMethod() == 0 {
+		return reflect.Zero(t), nil
+	}
+	return reflect.Value{}, fmt.Errorf("expected %s, found nil", t)
+}
+
 func Convert(v reflect.Value, t reflect.Type, w b6.World) (reflect.Value, error) {
+	if !v.IsValid() {
+		return convertNil(t)
+	}
 	if v.Type().AssignableTo(t) {
 		return v, nil
 	} else if v.CanConvert(t) {
@@ -143,7 +157,7 @@ func convertInterface(v reflect.Value, t reflect.Type) (reflect.Value, bool) {
 	}
 	if v.CanInterface() {
 		i := v.Interface()
-		if tt := reflect.TypeOf(i); tt.Implements(t) {
+		if tt := reflect.TypeOf(i); tt != nil && tt.Implements(t) {
 			return reflect.ValueOf(i).Convert(t), true
 		}
 	}
@@ -153,6 +167,9 @@ func convertInterface(v reflect.Value, t reflect.Type) (reflect.Value, bool) {
 // Convert v to type t, if possible. If v represents a b6 function, it'll be
 // turned into a go function that executes it in a vm.
 func ConvertWithContext(v reflect.Value, t reflect.Type, context *Context) (reflect.Value, error) {
+	if !v.IsValid() {
+		return convertNil(t)
+	}
 	if t.Kind() == reflect.Func {
 		var c Callable
 		if vc, ok := v.Interface().(Callable); ok {
